@@ -129,28 +129,36 @@ def race_exec(rng):
     return ({"name": "race", "sched": rng.randint(1, 10 ** 6)}, cmds)
 
 
+# scenarios of spec/design/MCTempSched.tla: (cfg, released stacks waiting, getters, releasers); model thread t is
+# the driver's thread t - 1
+SCHED_SCENARIOS = [("f0", 0, (2, 3, 4), ()), ("f1", 1, (2, 3, 4), ()), ("f2", 2, (2, 3, 4), ()),
+                   ("r1", 0, (2, 3), (5,)), ("r2", 1, (2, 3), (5, 6)), ("r3", 0, (2, 3, 4), (5,))]
+
+
 def planned_execs(limit, seed):
     """schedules generated by TLC from spec/design/MCTempSched.tla (one per transition of the state graph of
-    three threads acquiring a stack concurrently with 0, 1 or 2 released stacks waiting): the driver follows
-    the plan at its hook points"""
+    threads acquiring a stack concurrently, with released stacks waiting in the list and / or other threads
+    releasing theirs at the same time): the driver follows the plan at its hook points"""
     from . import models
     out = []
-    for free in (0, 1, 2):
-        beh, _ = models.behaviours("MCTempSched", "MCTempSched_f%d.cfg" % free, limit, seed)
+    for name, free, getters, releasers in SCHED_SCENARIOS:
+        beh, _ = models.behaviours("MCTempSched", "MCTempSched_%s.cfg" % name, limit, seed)
         for b in beh:
             cmds = []
-            holders = list(range(4, 4 + free))        # threads 4, 5 create the stacks that wait in the list
-            for t in holders:
+            # the list is built oldest first: `free` stacks that are released again, then one per releaser
+            makers = [7 - i for i in range(free)]       # driver threads 7, 6 create the stacks that wait in the list
+            for t in makers:
                 cmds.append("s %d init" % t)
-            for t in holders:
+            for t in releasers:
+                cmds.append("s %d init" % (t - 1))
+            for t in makers:
                 cmds.append("s %d uninit" % t)
-            cmds.append("par 1 get | 2 get | 3 get")
-            for t in (1, 2, 3):
-                cmds += ["s %d push" % t, "s %d alloc 40 8" % t]
-            for t in (1, 2, 3):
-                cmds += ["s %d check" % t, "s %d pop" % t]
-            # model threads 2..4 are the driver's threads 1..3
-            out.append(({"name": "tlc-sched", "free": free, "plan": ".".join(str(t - 1) for t in b), "sched": 7}, cmds))
+            cmds.append("par " + " | ".join(["%d get" % (t - 1) for t in getters] + ["%d uninit" % (t - 1) for t in releasers]))
+            for t in getters:
+                cmds += ["s %d push" % (t - 1), "s %d alloc 40 8" % (t - 1)]
+            for t in getters:
+                cmds += ["s %d check" % (t - 1), "s %d pop" % (t - 1)]
+            out.append(({"name": "tlc-sched", "sc": name, "plan": ".".join(str(t - 1) for t in b), "sched": 7}, cmds))
     return out
 
 
@@ -164,7 +172,7 @@ def jobs_c14(prop, tier, seed):
         execs += [api_exec(rng, rng.choice([2, 3, 4])) for _ in range(30 * s)]
         execs += [par_exec(rng, rng.choice([2, 3, 4])) for _ in range(40 * s)]
         execs += [race_exec(rng) for _ in range(60 * s)]
-        execs += planned_execs(40 if tier == "quick" else 2000, seed)
+        execs += planned_execs(30 if tier == "quick" else 2500, seed)
         J.append(Job(cfg, "temp", "TempTrace", execs, "temp", also=("TempListTrace",)))
     return J
 
